@@ -44,7 +44,7 @@ Qed.
 (* in the source shape where a dedup answer is booked only when it is accepted: every step keeps new+deduped = total *)
 Lemma step_mcons cf f c rest ans : mcons (f_metrics f) -> mcons (f_metrics (fst (step false cf f c rest ans))).
 Proof.
-  intros H. unfold step. destruct (match ans with Some a => Some a | None => local_query f rest end) as [[n s]|].
+  intros H. unfold step, step_with. destruct (match ans with Some a => Some a | None => local_query f rest end) as [[n s]|].
   - destruct (continues f s).
     + cbn [fst]. rewrite add_fse_metrics. cbn [with_metrics f_metrics]. apply mcons_bump_dedup; assumption.
     + destruct (d_allow cf (f_defrag f) n) as [ok d']. destruct ok; cbn [fst].
@@ -69,7 +69,7 @@ Proof. intros H. unfold process_chunks. cbn [f_metrics]. apply process_loop_mcon
 Lemma step_total_chunks cf f c rest ans :
   m_total_chunks (f_metrics (fst (step false cf f c rest ans))) = m_total_chunks (f_metrics f) + snd (step false cf f c rest ans).
 Proof.
-  unfold step. destruct (match ans with Some a => Some a | None => local_query f rest end) as [[n s]|].
+  unfold step, step_with. destruct (match ans with Some a => Some a | None => local_query f rest end) as [[n s]|].
   - destruct (continues f s).
     + cbn [fst snd]. rewrite add_fse_metrics. reflexivity.
     + destruct (d_allow cf (f_defrag f) n) as [ok d']. destruct ok; cbn [fst snd].
@@ -109,7 +109,7 @@ Proof.
     (* the consumed count is between 1 and the number of remaining chunks *)
     assert (Hlen : (1 <= length chunks)%nat) by (unfold chunks; cbn [length]; lia).
     assert (Hn : 1 <= n /\ n <= N.of_nat (length chunks)).
-    { unfold step in E. pose proof (Ha 0%nat) as H0. cbn [skipn] in H0.
+    { unfold step, step_with in E. pose proof (Ha 0%nat) as H0. cbn [skipn] in H0.
       destruct (hd None answers) as [[k s]|] eqn:Eh.
       - cbn [ans_fits] in H0. destruct (continues f s); [inversion E; subst; exact H0|].
         destruct (d_allow cf (f_defrag f) k) as [ok d']. destruct ok; inversion E; subst; [exact H0|]. lia.
@@ -195,7 +195,7 @@ Qed.
 
 Lemma step_ok bbd cf f c rest ans : cfg_ok cf -> chunk_fits cf c -> fd_ok cf f -> fd_ok cf (fst (step bbd cf f c rest ans)).
 Proof.
-  intros Hc Hf Hok. unfold step. 
+  intros Hc Hf Hok. unfold step, step_with. 
   assert (Hwm : forall g m, fd_ok cf g -> fd_ok cf (with_metrics g m)) by (intros g m H; exact H).
   assert (Hwd : forall g d, fd_ok cf g -> fd_ok cf (with_defrag g d)) by (intros g d H; exact H).
   assert (Hfse : forall g s n, fd_ok cf g -> fd_ok cf (add_fse cf g s n)).
@@ -254,7 +254,7 @@ Proof.
   induction fuel as [|fuel IH]; intros f chunks answers; cbn [process_loop]; [reflexivity|].
   destruct chunks as [|c r]; [reflexivity|].
   destruct (step bbd cf f c (map fst (c :: r)) (hd None answers)) as [f' n] eqn:E. rewrite IH.
-  unfold step in E. destruct (match hd None answers with Some a => Some a | None => local_query f _ end) as [[k s]|].
+  unfold step, step_with in E. destruct (match hd None answers with Some a => Some a | None => local_query f _ end) as [[k s]|].
   - destruct (continues _ s); [inversion E; subst; rewrite Hfse; destruct bbd; reflexivity|].
     destruct (d_allow cf _ k) as [ok d']. destruct ok; inversion E; subst; [rewrite Hfse; destruct bbd; reflexivity|].
     rewrite Hnew. destruct bbd; reflexivity.
